@@ -2,6 +2,7 @@ import Poulpy.Lemmas.HalSpec
 import Poulpy.Lemmas.NegMul
 import Poulpy.Lemmas.CnvSum
 import Poulpy.Lemmas.Ntt120Top
+import Poulpy.Lemmas.NttSum
 
 /-!
 # C07 — DFT-domain products equal exact negacyclic (bivariate) convolution
@@ -467,5 +468,185 @@ example : scalarPipeline primes30 25 (2 ^ 60) 570568956868604319 = 2 ^ 60 * 5705
 example : nttPipeline primes30 25 (fun _ => id) (fun _ => id) [-3] [5] = [-15] := by decide +kernel
 
 end NTT120
+
+/-! ## The NTT120 transforms themselves (`ntt_ref` / `intt_ref`, `NttTable::new` / `NttTableInv::new`)
+
+The hypothesis `NttIsRingIso` of `ntt120_pipeline_exact_partial` is no longer needed: the butterfly
+networks are modelled (`Ntt120.nttK`, `Ntt120.inttK` on `Ntt120.nttTableK`, `Ntt120.inttTableK`: levels,
+packed twiddles, lazy Barrett reductions, bit-size schedule, final scaling by `n⁻¹`, every `u64` wrap
+explicit; tied bit for bit through `pvh ntt120 ntt|intt|tab`) and proved.
+
+Structure of the proof (`Lemmas/NttMath.lean`, `NttRefine.lean`, `NttTable.lean`, `NttFinal.lean`, `NttSum.lean`):
+1. over any commutative ring, for **every** `k` (induction, no bound): the decimation-in-frequency
+   network `dif ρ k` evaluates its input polynomial at the bit-reversed powers of `ρ` when
+   `ρ^(2^(k−1)) = −1`; `nttM ω k` evaluates at the odd powers of `ω` (`ω^(2^k) = −1`), hence is additive
+   and multiplicative for the negacyclic product; `dit ρ⁻¹ k ∘ dif ρ k = 2^k`, hence `inttM ∘ nttM = id`;
+2. refinement: the executable lazy networks equal the mathematical ones modulo `q` and never wrap,
+   given a decidable numeric schedule check (`fwdSchedOK` / `invSchedOK`, propagating the exact
+   worst-case magnitude through the levels) and the twiddle conditions;
+3. the real tables satisfy both, for every `n = 2^j`, `1 ≤ j ≤ 16` (the constructor asserts `n ≤ 2^16`):
+   twiddles by general lemmas (`modq_pow`, successive multiplication, packing), the schedule by kernel
+   evaluation of the metadata for Primes29/30/31 (`primes29_nttGood`, `primes30_nttGood`, `primes31_nttGood`). -/
+
+section NTT120Transform
+open Ntt120 NttMath
+
+/-- the closed numeric facts (schedule checks for all 16 sizes × 4 primes, `OMEGA^(2^16) = −1`,
+`2^17 ∣ q − 1`, `2^(q−1) = 1`, reduction constants) hold for the three prime sets of `primes.rs` -/
+theorem ntt120_transform_facts : primes30.NttGood ∧ primes31.NttGood ∧ primes29.NttGood :=
+  ⟨primes30_nttGood, primes31_nttGood, primes29_nttGood⟩
+
+/-- `NttTable::new(2^j)` and `NttTableInv::new(2^j)` never hit their bit-size assertions, `1 ≤ j ≤ 16` -/
+theorem ntt120_tables_never_panic (P : PrimeSet) (ng : P.NttGood) (k j : Nat) (hk : k < 4) (hj1 : 1 ≤ j) (hj : j ≤ 16) :
+    (∃ t, nttTableK P k (2 ^ j) = .ok t) ∧ (∃ t, inttTableK P k (2 ^ j) = .ok t) :=
+  ⟨nttTableK_ok P k j (ng k hk).1 hj1 hj, inttTableK_ok P k j (ng k hk).2 hj1 hj⟩
+
+/-- the mathematical network evaluates, for every size `2^k` (no bound on `k`), over any commutative ring -/
+theorem ntt_network_evaluates {R : Type*} [CommRing R] (ω : R) (k : Nat) (a : List R) (ha : a.length = 2 ^ k) (hω : ω ^ 2 ^ k = -1) :
+    nttM ω k a = (pts (ω * ω) k).map (fun x => ev a (ω * x)) ∧ (∀ x ∈ pts (ω * ω) k, (ω * x) ^ 2 ^ k = -1) :=
+  ⟨nttM_eval ω k a ha hω, nttM_point_pow ω k hω⟩
+
+/-- (a) additive, and maps the negacyclic product to the point-wise product; (b) the inverse network inverts -/
+theorem ntt_network_ring_iso {R : Type*} [CommRing R] (ω ω' ninv : R) (k : Nat) (a b : List R) (ha : a.length = 2 ^ k) (hb : b.length = 2 ^ k)
+    (hω : ω ^ 2 ^ k = -1) (h : ω * ω' = 1) (hn : ninv * 2 ^ k = 1) :
+    nttM ω k (addL a b) = addL (nttM ω k a) (nttM ω k b) ∧
+    nttM ω k (negMulR a b) = mulL (nttM ω k a) (nttM ω k b) ∧
+    inttM ω' ninv k (nttM ω k a) = a :=
+  ⟨nttM_add ω k a b ha hb hω, nttM_mul ω k a b ha hb hω, inttM_nttM ω ω' ninv k h hn a ha⟩
+
+/-- **`ntt_ref` is evaluation at the odd powers of `ψ = OMEGA^(2^16/n)`** in the code's output order
+(`pts ψ² j`: bit-reversed), modulo the prime, for every `u64` input vector; no 64-bit wrap occurs
+(the refinement proof carries the exact magnitudes) -/
+theorem ntt120_ntt_ref_is_evaluation (P : PrimeSet) (ng : P.NttGood) (k j : Nat) (hk : k < 4) (hj1 : 1 ≤ j) (hj : j ≤ 16) (t : TableK)
+    (ht : nttTableK P k (2 ^ j) = .ok t) (v : List Nat) (hv : v.length = 2 ^ j) (hu : ∀ x ∈ v, x ≤ 2 ^ 64 - 1) :
+    (nttK t v).map (cz (P.qs.getD k 1)) =
+      (pts (omegaZ P k j * omegaZ P k j) j).map (fun x => ev (v.map (cz (P.qs.getD k 1))) (omegaZ P k j * x)) ∧
+    omegaZ P k j ^ 2 ^ j = -1 := by
+  obtain ⟨e, _, _⟩ := nttK_real P k j (ng k hk).1 hj1 hj t ht v hv hu
+  have hω := omegaZ_pow P k j (ng k hk).1 hj
+  rw [e, nttM_eval _ j _ (by simpa using hv) hω]
+  exact ⟨rfl, hω⟩
+
+/-- **(a) for the real transform**: additive and multiplicative modulo the prime -/
+theorem ntt120_ntt_ref_ring_hom (P : PrimeSet) (ng : P.NttGood) (k j : Nat) (hk : k < 4) (hj1 : 1 ≤ j) (hj : j ≤ 16) (t : TableK)
+    (ht : nttTableK P k (2 ^ j) = .ok t) (u v w : List Nat) (hu : u.length = 2 ^ j) (hv : v.length = 2 ^ j) (hw : w.length = 2 ^ j)
+    (uu : ∀ x ∈ u, x ≤ 2 ^ 64 - 1) (uv : ∀ x ∈ v, x ≤ 2 ^ 64 - 1) (uw : ∀ x ∈ w, x ≤ 2 ^ 64 - 1) :
+    (w.map (cz (P.qs.getD k 1)) = negMulR (u.map (cz (P.qs.getD k 1))) (v.map (cz (P.qs.getD k 1))) →
+      (nttK t w).map (cz (P.qs.getD k 1)) = mulL ((nttK t u).map (cz (P.qs.getD k 1))) ((nttK t v).map (cz (P.qs.getD k 1)))) ∧
+    (w.map (cz (P.qs.getD k 1)) = addL (u.map (cz (P.qs.getD k 1))) (v.map (cz (P.qs.getD k 1))) →
+      (nttK t w).map (cz (P.qs.getD k 1)) = addL ((nttK t u).map (cz (P.qs.getD k 1))) ((nttK t v).map (cz (P.qs.getD k 1)))) := by
+  obtain ⟨eu, _, _⟩ := nttK_real P k j (ng k hk).1 hj1 hj t ht u hu uu
+  obtain ⟨ev', _, _⟩ := nttK_real P k j (ng k hk).1 hj1 hj t ht v hv uv
+  obtain ⟨ew, _, _⟩ := nttK_real P k j (ng k hk).1 hj1 hj t ht w hw uw
+  have hω := omegaZ_pow P k j (ng k hk).1 hj
+  refine ⟨fun h => ?_, fun h => ?_⟩
+  · rw [ew, h, eu, ev', nttM_mul _ j _ _ (by simpa using hu) (by simpa using hv) hω]
+  · rw [ew, h, eu, ev', nttM_add _ j _ _ (by simpa using hu) (by simpa using hv) hω]
+
+/-- **(b) for the real transforms**: `intt_ref(ntt_ref(v)) ≡ v` modulo the prime, every `u64` vector -/
+theorem ntt120_intt_ntt_id (P : PrimeSet) (ng : P.NttGood) (k j : Nat) (hk : k < 4) (hj1 : 1 ≤ j) (hj : j ≤ 16) (t ti : TableK)
+    (ht : nttTableK P k (2 ^ j) = .ok t) (hti : inttTableK P k (2 ^ j) = .ok ti)
+    (v : List Nat) (hv : v.length = 2 ^ j) (hu : ∀ x ∈ v, x ≤ 2 ^ 64 - 1) :
+    (inttK ti (nttK t v)).map (cz (P.qs.getD k 1)) = v.map (cz (P.qs.getD k 1)) :=
+  intt_ntt_real P k j (ng k hk).1 (ng k hk).2 hj1 hj t ti ht hti v hv hu
+
+/-- **the NTT120 product pipeline is exact below `Q/2` — no hypothesis on the transform**:
+`svp_prepare(p)`, `vec_znx_dft_apply(x)`, `svp_apply_dft_to_dft`, `vec_znx_idft_apply` on `i64` limbs of ring
+degree `n = 2^j`, `1 ≤ j ≤ 16` (`b_from_znx64 → ntt_ref → c_from_b → bbc → intt_ref → b_to_znx128`, all
+executable) return exactly the negacyclic product `p ⋆ x` whenever each of its coefficients is at most
+`(Q−1)/2` in absolute value (`n = 1`: `ntt120_pipeline_exact_degree_one`) -/
+theorem ntt120_pipeline_exact (P : PrimeSet) (g : P.Good) (ng : P.NttGood) (j : Nat) (hj1 : 1 ≤ j) (hj : j ≤ 16)
+    (p x : Poly) (hp : p.length = 2 ^ j) (hx : x.length = 2 ^ j)
+    (hpr : ∀ c ∈ p, -(2 ^ 63) ≤ c ∧ c < 2 ^ 63) (hxr : ∀ c ∈ x, -(2 ^ 63) ≤ c ∧ c < 2 ^ 63)
+    (hbound : ∀ i, i < 2 ^ j → -(((bigQ P : Int) - 1) / 2) ≤ (negMul p x).getD i 0 ∧ (negMul p x).getD i 0 ≤ ((bigQ P : Int) - 1) / 2) :
+    svpPipeline P (2 ^ j) p x = negMul p x :=
+  svpPipeline_exact P g ng j hj1 hj p x hp hx hpr hxr hbound
+
+/-- the same for the default prime set with its numbers: exact whenever `|coefficient| ≤ 2^118` -/
+theorem ntt120_pipeline_exact_primes30 (j : Nat) (hj1 : 1 ≤ j) (hj : j ≤ 16)
+    (p x : Poly) (hp : p.length = 2 ^ j) (hx : x.length = 2 ^ j)
+    (hpr : ∀ c ∈ p, -(2 ^ 63) ≤ c ∧ c < 2 ^ 63) (hxr : ∀ c ∈ x, -(2 ^ 63) ≤ c ∧ c < 2 ^ 63)
+    (hbound : ∀ i, i < 2 ^ j → -(2 ^ 118) ≤ (negMul p x).getD i 0 ∧ (negMul p x).getD i 0 ≤ 2 ^ 118) :
+    svpPipeline primes30 (2 ^ j) p x = negMul p x := by
+  have hq : ((bigQ primes30 : Nat) : Int) = 1315642440469820935610546842527858689 := by
+    have := ntt120_Q.1; exact_mod_cast this
+  apply ntt120_pipeline_exact primes30 primes30_good primes30_nttGood j hj1 hj p x hp hx hpr hxr
+  intro i hi
+  have := hbound i hi
+  rw [hq]; omega
+
+/-- **sums of products (`vmp`) are exact below `Q/2`**: fewer than 10 000 rows `(p_j, x_j)` (matrix entry,
+input limb), `vmp_prepare`, `dft_apply`, `vmp_apply_dft_to_dft` (one output column), `idft_apply` return
+exactly `Σ_j p_j ⋆ x_j` whenever each coefficient of the sum is at most `(Q−1)/2` in absolute value -/
+theorem ntt120_vmp_exact (P : PrimeSet) (g : P.Good) (ng : P.NttGood) (j : Nat) (hj1 : 1 ≤ j) (hj : j ≤ 16)
+    (rows : List (Poly × Poly)) (hell : rows.length < 10000)
+    (hlen : ∀ r ∈ rows, r.1.length = 2 ^ j ∧ r.2.length = 2 ^ j)
+    (hrng : ∀ r ∈ rows, (∀ c ∈ r.1, -(2 ^ 63) ≤ c ∧ c < 2 ^ 63) ∧ (∀ c ∈ r.2, -(2 ^ 63) ≤ c ∧ c < 2 ^ 63))
+    (hbound : ∀ i, i < 2 ^ j →
+      -(((bigQ P : Int) - 1) / 2) ≤ (sumPolys (2 ^ j) (rows.map (fun r => negMul r.1 r.2))).getD i 0 ∧
+      (sumPolys (2 ^ j) (rows.map (fun r => negMul r.1 r.2))).getD i 0 ≤ ((bigQ P : Int) - 1) / 2) :
+    vmpPipeline P (2 ^ j) rows = sumPolys (2 ^ j) (rows.map (fun r => negMul r.1 r.2)) :=
+  vmpPipeline_exact P g ng j hj1 hj rows hell hlen hrng hbound
+
+/-- **end to end, scalar-vector product**: what the NTT120 back end computes for limb `l` of
+`svp_apply_dft` is exactly what the HAL specification model says (`svpApplyCol`: `negMul p limb`) -/
+theorem ntt120_svp_matches_spec (P : PrimeSet) (g : P.Good) (ng : P.NttGood) (j : Nat) (hj1 : 1 ≤ j) (hj : j ≤ 16)
+    (rs : Nat) (p : Poly) (b : Col) (l : Nat) (hl : l < rs) (hlb : l < b.length) (d : Poly)
+    (hp : p.length = 2 ^ j) (hb : (limbOr0 (2 ^ j) b l).length = 2 ^ j)
+    (hpr : ∀ c ∈ p, -(2 ^ 63) ≤ c ∧ c < 2 ^ 63) (hxr : ∀ c ∈ limbOr0 (2 ^ j) b l, -(2 ^ 63) ≤ c ∧ c < 2 ^ 63)
+    (hbound : ∀ i, i < 2 ^ j → -(((bigQ P : Int) - 1) / 2) ≤ (negMul p (limbOr0 (2 ^ j) b l)).getD i 0 ∧
+      (negMul p (limbOr0 (2 ^ j) b l)).getD i 0 ≤ ((bigQ P : Int) - 1) / 2) :
+    svpPipeline P (2 ^ j) p (limbOr0 (2 ^ j) b l) = (svpApplyCol (2 ^ j) rs p b).getD l d := by
+  rw [svp_limbwise (2 ^ j) rs p b l hl d, if_pos hlb]
+  exact ntt120_pipeline_exact P g ng j hj1 hj p _ hp hb hpr hxr hbound
+
+/-- **end to end, vector-matrix product**: one flat output entry of the HAL specification model
+(`vmpFlat`, `limb_offset = 0`) is exactly what the NTT120 pipeline computes from the rows
+`(matrix entry, input limb)` -/
+theorem ntt120_vmp_matches_spec (P : PrimeSet) (g : P.Good) (ng : P.NttGood) (j : Nat) (hj1 : 1 ≤ j) (hj : j ≤ 16)
+    (a : List Poly) (m : PMat) (rl r : Nat) (hr : r < rl) (hc : r < m.colsOut * m.size) (d : Poly)
+    (hrows : min (m.colsIn * m.rows) a.length < 10000)
+    (hlen : ∀ i, i < min (m.colsIn * m.rows) a.length → (m.entry i r).length = 2 ^ j ∧ (a.getD i (zeroP (2 ^ j))).length = 2 ^ j)
+    (hrng : ∀ i, i < min (m.colsIn * m.rows) a.length →
+      (∀ c ∈ m.entry i r, -(2 ^ 63) ≤ c ∧ c < 2 ^ 63) ∧ (∀ c ∈ a.getD i (zeroP (2 ^ j)), -(2 ^ 63) ≤ c ∧ c < 2 ^ 63))
+    (hbound : ∀ i, i < 2 ^ j → -(((bigQ P : Int) - 1) / 2) ≤ ((vmpFlat (2 ^ j) a m 0 rl).getD r d).getD i 0 ∧
+      ((vmpFlat (2 ^ j) a m 0 rl).getD r d).getD i 0 ≤ ((bigQ P : Int) - 1) / 2) :
+    vmpPipeline P (2 ^ j) ((List.range (min (m.colsIn * m.rows) a.length)).map (fun i => (m.entry i r, a.getD i (zeroP (2 ^ j))))) =
+      (vmpFlat (2 ^ j) a m 0 rl).getD r d := by
+  have e : (vmpFlat (2 ^ j) a m 0 rl).getD r d =
+      sumPolys (2 ^ j) (((List.range (min (m.colsIn * m.rows) a.length)).map (fun i => (m.entry i r, a.getD i (zeroP (2 ^ j))))).map
+        (fun r => negMul r.2 r.1)) := by
+    rw [vmp_entry (2 ^ j) a m 0 rl r hr d]
+    have h1 : 0 * m.colsOut < min (m.colsOut * m.size) (rl + 0 * m.colsOut) ∧
+        r < min (m.colsOut * m.size) (rl + 0 * m.colsOut) - 0 * m.colsOut := by
+      simp only [Nat.zero_mul, Nat.add_zero, Nat.sub_zero]; omega
+    rw [if_pos h1, List.map_map]
+    congr 1
+    apply List.map_congr_left
+    intro i _
+    simp only [Function.comp, Nat.zero_mul, Nat.add_zero]
+  rw [e] at hbound ⊢
+  apply vmpPipeline_exact_swapped P g ng j hj1 hj _ (by simpa using hrows)
+  · intro r' hr'
+    simp only [List.mem_map, List.mem_range] at hr'
+    obtain ⟨i, hi, rfl⟩ := hr'
+    exact hlen i hi
+  · intro r' hr'
+    simp only [List.mem_map, List.mem_range] at hr'
+    obtain ⟨i, hi, rfl⟩ := hr'
+    exact hrng i hi
+  · exact hbound
+
+/-! non-vacuity: the executable pipelines (tables, butterflies, lazy reductions, CRT) on concrete limbs -/
+
+example : svpPipeline primes30 4 [1, 2, 0, 0] [3, 4, 0, 0] = [3, 10, 8, 0] := by decide +kernel
+example : svpPipeline primes30 8 [0, 0, 0, 0, 0, 0, 0, 1] [0, -9223372036854775808, 0, 0, 0, 0, 0, 0] =
+    [9223372036854775808, 0, 0, 0, 0, 0, 0, 0] := by decide +kernel
+example : vmpPipeline primes30 2 [([1, 2], [3, 4]), ([-5, 6], [7, -8])] = polyAdd (negMul [1, 2] [3, 4]) (negMul [-5, 6] [7, -8]) := by
+  decide +kernel
+example : ∃ t, nttTableK primes30 0 65536 = .ok t :=
+  (ntt120_tables_never_panic primes30 primes30_nttGood 0 16 (by decide) (by decide) (by decide)).1
+
+end NTT120Transform
 
 end C07
